@@ -157,6 +157,15 @@ func runC11(x *Ctx) {
 			}
 			n++
 			pol, has := p.FactOn(want)
+			if !has {
+				// the same comparison with its interpretation function looked up in a package-level table under the
+				// statement's kind (a map literal keyed by the kind constants)
+				for _, fc := range p.Facts {
+					if canonTableLookups(x, fc.Atom, k) == want {
+						pol, has = fc.Pol, true
+					}
+				}
+			}
 			switch {
 			case p.End != paths.EndReturn:
 				ok = false
@@ -479,6 +488,49 @@ func constructorRules(x *Ctx, ms *ssa.Function, evalCases map[string]string) {
 		}
 		x.C.Obl("C11.R1", "constructor:"+name, x.pos(outer), "the constructor builds the statement of its kind from exactly its own parameters", ok, dedupLines(detail))
 	}
+}
+
+// canonTableLookups renders an atom with every lookup `table[kind]` - table a package-level map variable
+// initialised by a map literal, kind the statement's kind as the path spells it (cur.Kind() or the kind field of
+// the asserted statement) - replaced by the entry the literal holds for the kind k of the case under analysis.
+func canonTableLookups(x *Ctx, atom *paths.Term, k string) string {
+	s := atom.String()
+	atom.Walk(func(t *paths.Term) {
+		if t.Op != "extract" || t.Name != "#0" || t.Args[0].Op != "lookup" {
+			return
+		}
+		lk := t.Args[0]
+		key := lk.Args[1].String()
+		if !(strings.HasPrefix(key, "invoke[pkg/policy.Statement.Kind](") || strings.HasSuffix(key, ".kind")) {
+			return
+		}
+		if lk.Args[0].Op != "load" || lk.Args[0].Args[0].Op != "global" {
+			return
+		}
+		g, ok := lk.Args[0].Args[0].Val.(*ssa.Global)
+		if !ok {
+			return
+		}
+		if v, ok := globalMapLiteral(x, g)[fmt.Sprintf("%q", k)]; ok {
+			s = strings.ReplaceAll(s, t.String(), v)
+		}
+	})
+	// the plain lookup (no comma-ok) renders without #0
+	atom.Walk(func(t *paths.Term) {
+		if t.Op != "lookup" {
+			return
+		}
+		key := t.Args[1].String()
+		if !(strings.HasPrefix(key, "invoke[pkg/policy.Statement.Kind](") || strings.HasSuffix(key, ".kind")) || t.Args[0].Op != "load" || t.Args[0].Args[0].Op != "global" {
+			return
+		}
+		if g, ok := t.Args[0].Args[0].Val.(*ssa.Global); ok {
+			if v, ok := globalMapLiteral(x, g)[fmt.Sprintf("%q", k)]; ok {
+				s = strings.ReplaceAll(s, t.String(), v)
+			}
+		}
+	})
+	return s
 }
 
 // orderedFalseCause tells whether a `return false` path of isOrdered carries one of the recognised causes.
